@@ -474,6 +474,65 @@ def lru_purity(repo_index, qualname, allow_io=False):
     return [_rec(name, "purity", qualname, "refuted" if bad else "discharged", f"impure: {sorted(set(bad))}" if bad else "no IO / randomness / global state in the body")]
 
 
+def frame_readonly(repo_index, qualname, allowed_attrs=()):
+    """`modifies = ()`: the function writes to nothing reachable from its parameters (objects it
+    creates itself are its own business).  Aliases are tracked flow-insensitively: a local bound to
+    <param>.<attr>, <param>[...] or to an alias of those denotes parameter state."""
+    f = repo_index.funcs.get(qualname)
+    name = f"{qualname}:frame[modifies nothing reachable from its arguments]"
+    if f is None:
+        return [_rec(name, "frame", qualname, "undecided", "function not found")]
+    params = set(f.params) | ({f.vararg} if f.vararg else set())
+    shared = set()
+    changed = True
+
+    def from_params(expr):
+        # attribute / subscript chains rooted at a parameter or at an alias; calls are opaque
+        # (their results are fresh values as far as this analysis is concerned) except method calls
+        # named in ALIAS_RETURNING which hand out internal state
+        if isinstance(expr, ast.Name):
+            return expr.id in shared
+        if isinstance(expr, ast.Attribute):
+            root = _root_name(expr)
+            return bool(root) and (root[0] in params or root[0] in shared)
+        if isinstance(expr, ast.Subscript):
+            return from_params(expr.value) or (isinstance(expr.value, ast.Name) and expr.value.id in params)
+        if isinstance(expr, ast.Call) and isinstance(expr.func, ast.Attribute) and expr.func.attr in ("_pattern_details", "items", "values", "get", "setdefault"):
+            return from_params(expr.func.value) or (isinstance(expr.func.value, ast.Name) and expr.func.value.id in params)
+        return False
+
+    while changed:
+        changed = False
+        for node in ast.walk(f.node):
+            src, tgts = None, []
+            if isinstance(node, ast.Assign):
+                src, tgts = node.value, [n.id for t in node.targets for n in ast.walk(t) if isinstance(n, ast.Name)]
+            elif isinstance(node, ast.AnnAssign) and node.value is not None:
+                src, tgts = node.value, [n.id for n in ast.walk(node.target) if isinstance(n, ast.Name)]
+            if src is not None and from_params(src):
+                for nm in tgts:
+                    if nm not in shared and nm not in params:
+                        shared.add(nm)
+                        changed = True
+    writes = []
+    for node in ast.walk(f.node):
+        if isinstance(node, (ast.Assign, ast.AugAssign, ast.AnnAssign)):
+            tg = node.targets if isinstance(node, ast.Assign) else [node.target]
+            for t in tg:
+                if isinstance(t, ast.Subscript) and (from_params(t.value) or (isinstance(t.value, ast.Name) and t.value.id in params)):
+                    writes.append(ast.unparse(t))
+                if isinstance(t, ast.Attribute):
+                    root = _root_name(t)
+                    if root and (root[0] in params or root[0] in shared) and t.attr not in allowed_attrs:
+                        writes.append(ast.unparse(t))
+        if isinstance(node, ast.Call) and isinstance(node.func, ast.Attribute) and node.func.attr in MUTATORS:
+            v = node.func.value
+            if from_params(v) or (isinstance(v, ast.Name) and v.id in params):
+                writes.append(ast.unparse(node.func) + "()")
+    return [_rec(name, "frame", qualname, "refuted" if writes else "discharged",
+                 ("writes to argument state: " + ", ".join(sorted(set(writes)))) if writes else f"no store through parameters or their aliases {sorted(shared)}")]
+
+
 # ================================================================ closed world
 def closed_world(repo_index):
     recs = []
@@ -500,6 +559,12 @@ def run_for(prop):
         recs += LockAnalysis(idx).run()[1:2]  # sequential contracts of C02 assume the writers are serialised
     if prop == "C01":
         recs += memo_attribute(idx, "Perm", "_cached_pattern_details", "_pattern_details", ["Perm.occurrences_in"])
+        recs += frame_readonly(idx, "Perm.occurrences_in")
+        recs += frame_readonly(idx, "Perm.left_floor_and_ceiling")
+        recs += frame_readonly(idx, "Perm._pattern_details", allowed_attrs=("_cached_pattern_details",))
+        recs += frame_readonly(idx, "Perm._contains")
+        recs += frame_readonly(idx, "Perm.contains")
+        recs += frame_readonly(idx, "Perm.avoids")
     if prop == "C09":
         recs += lru_purity(idx, "Perm._to_standard")
     if prop == "C13":
